@@ -92,6 +92,20 @@ class C09(Prop):
             if mutated:
                 return violation(f'state_dict() taken at boundary {c0} and kept in memory changed while training continued to step {T} (rank {rank}): {mutated}',
                                  'saved-state-mutated', labels=labels)
+        # (f) loading one state dict must not modify another one kept in memory: two states are taken (boundaries c0 >= 1 and T), the
+        #     older one is loaded into the live preconditioner (the very dict, or a copy), then both are compared with deep copies
+        if 1 <= c0 < T:
+            two, err = run([train(t) for t in range(c0)] + [{'op': 'snapshot', 'slot': 'a'}] + [train(t) for t in range(c0, T)]
+                           + [{'op': 'snapshot', 'slot': 'b'}, {'op': 'rollback', 'slot': 'a', 'live': bool(case.get('rollback_live')), 'compute_inverses': True},
+                              {'op': 'check_snapshot', 'slot': 'a'}, {'op': 'check_snapshot', 'slot': 'b'}])
+            if err:
+                return violation(f'loading the state of boundary {c0} into the live preconditioner at step {T} failed: {err}', 'rollback-failed', labels=labels)
+            for rank in range(len(two)):
+                for which, r in zip(('the loaded state itself', f'another state (taken at step {T}) kept in memory'),
+                                    [r for r in two[rank] if r['op'] == 'check_snapshot']):
+                    if r['snapshot_mutated']:
+                        return violation(f'load_state_dict(state of boundary {c0}) into the live preconditioner modified {which} (rank {rank}): '
+                                         f'{r["snapshot_mutated"]}', 'saved-state-mutated', labels=labels)
         nontrivial = recompute_branch = identical_branch = no_factors = False
         for c in case['cs']:
             refresh_c = c % _at(hp['inv_update_steps'], c) == 0
